@@ -14,6 +14,8 @@ import (
 	"io"
 	"sort"
 	"strings"
+	"sync"
+	"sync/atomic"
 	"testing"
 	"time"
 
@@ -90,9 +92,51 @@ func (r *c01Rows) Next(dest []driver.Value) error {
 	return nil
 }
 
+// c01RegDriver: the same fake database reached through database/sql's driver registry,
+// the way sqlx.NewConn(driverName, dataSourceName) opens it; the data source name selects
+// the case's configuration.
+type c01RegDriver struct{}
+
+var (
+	c01RegMu   sync.Mutex
+	c01RegCfgs = map[string]*c01Cfg{}
+	c01RegSeq  int64
+)
+
+func (c01RegDriver) Open(dsn string) (driver.Conn, error) {
+	c01RegMu.Lock()
+	cfg := c01RegCfgs[dsn]
+	c01RegMu.Unlock()
+	if cfg == nil {
+		return nil, fmt.Errorf("c01: unknown data source %q", dsn)
+	}
+	return &c01Conn{cfg}, nil
+}
+
+func init() { sql.Register("c01fake", c01RegDriver{}) }
+
+func c01NewDSN(cfg *c01Cfg) string {
+	dsn := fmt.Sprintf("c01-dsn-%d", atomic.AddInt64(&c01RegSeq, 1))
+	c01RegMu.Lock()
+	c01RegCfgs[dsn] = cfg
+	c01RegMu.Unlock()
+	return dsn
+}
+
+func c01DropDSN(dsn string) {
+	c01RegMu.Lock()
+	delete(c01RegCfgs, dsn)
+	c01RegMu.Unlock()
+}
+
 // ---- table
 
 var c01DBDown = errors.New("c01: database down")
+
+// c01PtrErr: an error whose nil pointer is a usable error value
+type c01PtrErr struct{}
+
+func (e *c01PtrErr) Error() string { return "c01 typed nil" }
 
 type c01AccCase struct {
 	Err    string `json:"e"` // nil norows txdone canceled plain eof unavailable
@@ -126,6 +170,13 @@ func TestVerif_C01_sqlx_table(t *testing.T) {
 				}
 			}
 		}
+		// UNSPECIFIED by the statement (it names the sentinel values; the code compares with ==):
+		// wrapped / joined sentinels and a typed nil are run for panics only
+		for _, e := range []string{"wrapped-norows", "wrapped-txdone", "wrapped-canceled", "joined", "typednil"} {
+			if !yield(c01AccCase{e, "none"}) {
+				return
+			}
+		}
 	}
 	kit.Enumerate(t, "C01", "sqlx-acceptable-table", each, func(c c01AccCase) (v kit.Verdict) {
 		conn := &commonConn{}
@@ -134,6 +185,26 @@ func TestVerif_C01_sqlx_table(t *testing.T) {
 			conn.accept = func(error) bool { return false }
 		case "plain":
 			conn.accept = func(err error) bool { return err == c01DBDown }
+		}
+		switch c.Err {
+		case "wrapped-norows", "wrapped-txdone", "wrapped-canceled", "joined", "typednil":
+			var err error
+			switch c.Err {
+			case "wrapped-norows":
+				err = fmt.Errorf("c01 wrap: %w", sql.ErrNoRows)
+			case "wrapped-txdone":
+				err = fmt.Errorf("c01 wrap: %w", sql.ErrTxDone)
+			case "wrapped-canceled":
+				err = fmt.Errorf("c01 wrap: %w", context.Canceled)
+			case "joined":
+				err = errors.Join(sql.ErrNoRows, c01DBDown)
+			case "typednil":
+				var p *c01PtrErr
+				err = p
+			}
+			v.Classes = []string{"unspecified-error-value"}
+			_ = conn.acceptable(err) // a panic here crashes the check: that is the only verdict
+			return v
 		}
 		err := c01ErrOf(c.Err)
 		got := conn.acceptable(err)
@@ -163,8 +234,11 @@ func TestVerif_C01_sqlx_table(t *testing.T) {
 // ---- behaviour: several connections, each with its own breaker
 
 type c01SQLStep struct {
-	N int    `json:"n"` // connection index
-	E string `json:"e"` // exec queryrow queryrowpartial queryrows queryrowspartial prepare transact transactnoctx
+	N int `json:"n"` // connection index
+	// E: exec queryrow queryrowpartial queryrows queryrowspartial prepare transact transactnoctx, "...plain" = the
+	// form without ctx; "stmt..." = Prepare (through the breaker) and then that call on the returned statement
+	// session, where outcome O is produced (statement sessions do not pass through the breaker)
+	E string `json:"e"`
 	O int    `json:"o"` // 0 ok 1 no rows 2 tx done 3 driver returns context.Canceled 4 caller's ctx cancelled 8 connection provider fails (refused connection) 9 database down
 	// B: how a transaction body produces outcome O (transact entries only):
 	// 0 through s.ExecCtx (the driver returns the error); 1 the body returns the
@@ -175,9 +249,10 @@ type c01SQLStep struct {
 }
 
 type c01SQLCase struct {
-	K     int          `json:"k"`             // connections (all on one fake database)
-	Kind  []int        `json:"kind"`          // per connection: 0 benign, 1 one non-benign outcome only, 2 mixed
-	Opt   []int        `json:"opt,omitempty"` // per connection: 0 no option, 1 an accept option that declares "database down" acceptable
+	K     int          `json:"k"`              // connections (all on one fake database)
+	Kind  []int        `json:"kind"`           // per connection: 0 benign, 1 one non-benign outcome only, 2 mixed
+	Opt   []int        `json:"opt,omitempty"`  // per connection: 0 no option, 1 an accept option that declares "database down" acceptable
+	Ctor  []int        `json:"ctor,omitempty"` // per connection: 0 NewConnFromDB(db, opts...), 1 NewConn(driverName, dataSourceName, opts...) through the driver registry and the connection manager
 	Steps []c01SQLStep `json:"steps"`
 	Skew  int64        `json:"skew,omitempty"`
 }
@@ -187,6 +262,9 @@ func c01GenSQL(rt *rapid.T) c01SQLCase {
 	c.Skew = rapid.Int64Range(0, 1_000_000_000).Draw(rt, "skew")
 	all := []string{"exec", "queryrow", "queryrowpartial", "queryrows", "queryrowspartial", "prepare", "transact", "transact", "transactnoctx",
 		"execplain", "queryrowplain", "queryrowpartialplain", "queryrowsplain", "queryrowspartialplain", "prepareplain"}
+	// a failing statement session records nothing: only for benign and mixed connections
+	stmts := []string{"stmtexec", "stmtqueryrow", "stmtqueryrowpartial", "stmtqueryrows", "stmtqueryrowspartial",
+		"stmtexecplain", "stmtqueryrowplain", "stmtqueryrowpartialplain", "stmtqueryrowsplain", "stmtqueryrowspartialplain"}
 	// mk draws the body mode for transaction entries
 	fixB := -1 // per connection: one fixed body mode (where valid), so that a miscounting mode is not diluted
 	mk := func(n int, e string, o int) c01SQLStep {
@@ -215,10 +293,15 @@ func c01GenSQL(rt *rapid.T) c01SQLCase {
 		kind := rapid.SampledFrom([]int{0, 0, 1, 1, 2}).Draw(rt, "kind")
 		c.Kind = append(c.Kind, kind)
 		c.Opt = append(c.Opt, rapid.SampledFrom([]int{0, 0, 1}).Draw(rt, "opt"))
+		c.Ctor = append(c.Ctor, rapid.IntRange(0, 1).Draw(rt, "ctor"))
 		fixB = rapid.IntRange(-1, 4).Draw(rt, "fixb")
-		entries := all
+		avail := all
+		if kind != 1 {
+			avail = append(append([]string{}, all...), stmts...)
+		}
+		entries := avail
 		if rapid.Bool().Draw(rt, "oneentry") { // a miscounting entry point must not be diluted by the others
-			entries = []string{rapid.SampledFrom(all).Draw(rt, "theentry")}
+			entries = []string{rapid.SampledFrom(avail).Draw(rt, "theentry")}
 		}
 		switch kind {
 		case 0:
@@ -233,7 +316,7 @@ func c01GenSQL(rt *rapid.T) c01SQLCase {
 				if rapid.Bool().Draw(rt, "tx") {
 					entries = []string{rapid.SampledFrom([]string{"transact", "transactnoctx"}).Draw(rt, "txentry")}
 				} else {
-					entries = []string{rapid.SampledFrom(append(append([]string{}, all[:6]...), all[9:]...)).Draw(rt, "entry")}
+					entries = []string{rapid.SampledFrom(append(append(append([]string{}, all[:6]...), all[9:]...), stmts...)).Draw(rt, "entry")}
 				}
 				o := rapid.IntRange(1, 4).Draw(rt, "fo")
 				pool = []int{o}
@@ -296,6 +379,12 @@ func c01InterpSQL(t *testing.T, c c01SQLCase) (v kit.Verdict) {
 		}
 		return 0
 	}
+	ctor := func(n int) int {
+		if n < len(c.Ctor) {
+			return c.Ctor[n]
+		}
+		return 0
+	}
 	// what the statement requires of a connection follows from ITS script and ITS option:
 	// benignFor: nil, the sentinels and whatever the connection's accept option accepts
 	benignFor := func(n, o int) bool { return o <= 4 || (o == 9 && opt(n) == 1) }
@@ -320,20 +409,38 @@ func c01InterpSQL(t *testing.T, c c01SQLCase) (v kit.Verdict) {
 		}
 		cfg := &c01Cfg{}
 		db := sql.OpenDB(c01Connector{cfg})
-		defer func() {
-			_ = db.Close()
-			kit.Wait()
-		}()
 		provided := make([]int, c.K)
 		refuse := false
 		conns := make([]*commonConn, c.K)
+		var dsns []string
+		defer func() {
+			refuse = false
+			for n, cc := range conns { // the connection manager keeps the *sql.DB of a NewConn connection: close it
+				if cc != nil && ctor(n) == 1 {
+					if raw, err := cc.RawDB(); err == nil && raw != nil {
+						_ = raw.Close()
+					}
+				}
+			}
+			for _, d := range dsns {
+				c01DropDSN(d)
+			}
+			_ = db.Close()
+			kit.Wait()
+		}()
 		for n := 0; n < c.K; n++ {
 			n := n
 			var opts []Option
 			if opt(n) == 1 { // same shape as the package's own withMySQLAcceptable option
 				opts = append(opts, func(cc *commonConn) { cc.accept = func(err error) bool { return err == c01DBDown } })
 			}
-			conns[n] = NewConnFromDB(db, opts...).(*commonConn)
+			if ctor(n) == 1 {
+				dsn := c01NewDSN(cfg)
+				dsns = append(dsns, dsn)
+				conns[n] = NewConn("c01fake", dsn, opts...).(*commonConn)
+			} else {
+				conns[n] = NewConnFromDB(db, opts...).(*commonConn)
+			}
 			orig := conns[n].provider
 			conns[n].provider = func() (*sql.DB, error) {
 				provided[n]++
@@ -354,7 +461,7 @@ func c01InterpSQL(t *testing.T, c c01SQLCase) (v kit.Verdict) {
 			switch o.O {
 			case 1:
 				want = sql.ErrNoRows
-				if o.E == "queryrow" || o.E == "queryrowpartial" || o.E == "queryrowplain" || o.E == "queryrowpartialplain" {
+				if e := strings.TrimPrefix(o.E, "stmt"); e == "queryrow" || e == "queryrowpartial" || e == "queryrowplain" || e == "queryrowpartialplain" {
 					cfg.rows = 0 // the natural way: empty result set
 				} else {
 					cfg.next = sql.ErrNoRows
@@ -412,6 +519,46 @@ func c01InterpSQL(t *testing.T, c c01SQLCase) (v kit.Verdict) {
 						_ = st.Close()
 					}
 				}
+			case "stmtexec", "stmtqueryrow", "stmtqueryrowpartial", "stmtqueryrows", "stmtqueryrowspartial",
+				"stmtexecplain", "stmtqueryrowplain", "stmtqueryrowpartialplain", "stmtqueryrowsplain", "stmtqueryrowspartialplain":
+				next := cfg.next
+				cfg.next = nil // the database is healthy while the statement is prepared
+				var st StmtSession
+				st, err = conn.PrepareCtx(context.Background(), "prepare")
+				if err != nil || st == nil {
+					break
+				}
+				cfg.next = next
+				var x int64
+				var xs []int64
+				e := strings.TrimPrefix(o.E, "stmt")
+				if o.O == 4 { // the forms without ctx cannot carry a cancelled context
+					e = strings.TrimSuffix(e, "plain")
+				}
+				switch e {
+				case "exec":
+					_, err = st.ExecCtx(ctx)
+				case "queryrow":
+					err = st.QueryRowCtx(ctx, &x)
+				case "queryrowpartial":
+					err = st.QueryRowPartialCtx(ctx, &x)
+				case "queryrows":
+					err = st.QueryRowsCtx(ctx, &xs)
+				case "queryrowspartial":
+					err = st.QueryRowsPartialCtx(ctx, &xs)
+				case "execplain":
+					_, err = st.Exec()
+				case "queryrowplain":
+					err = st.QueryRow(&x)
+				case "queryrowpartialplain":
+					err = st.QueryRowPartial(&x)
+				case "queryrowsplain":
+					err = st.QueryRows(&xs)
+				case "queryrowspartialplain":
+					err = st.QueryRowsPartial(&xs)
+				}
+				_ = st.Close()
+				classes["statement-session"] = true
 			case "prepare":
 				var st StmtSession
 				st, err = conn.PrepareCtx(ctx, "prepare")
@@ -521,6 +668,12 @@ func c01InterpSQL(t *testing.T, c c01SQLCase) (v kit.Verdict) {
 		}
 		if opt(n) == 1 {
 			classes["conn-with-accept-option"] = true
+		}
+		if ctor(n) == 1 {
+			classes["conn-from-NewConn"] = true
+			if opt(n) == 1 {
+				classes["conn-from-NewConn-with-accept-option"] = true
+			}
 		}
 	}
 	for _, st := range c.Steps {
